@@ -16,7 +16,7 @@ import itertools
 import numpy as np
 import odl
 
-from .. import fd, functab, util
+from .. import cover, fd, functab, util
 
 SHARDS = {'quick': 4, 'thorough': 16}
 S = odl.solvers
@@ -309,6 +309,8 @@ def run(ctx):
                      'pairs and 30 point pairs for the Lipschitz bound; distinct = distinct (functional, space)')
     rng = ctx.rng('c09')
     crng = ctx.crng('ctor')
+    cov = cover.functional_cover(('gradient', '_call', 'grad_lipschitz'))
+    cov.arm()
     recipes = [(a, b, c, d, e, None) for a, b, c, d, e in functab.all_functionals(crng, ctx.thorough)]
     for sname, sp in list(functab.spaces()) + list(functab.pspaces()):
         for fname, thunk, tags, ref in extra(sp, crng):
@@ -333,5 +335,6 @@ def run(ctx):
         run_numerical_gradient(ctx)
     if ctx.shard == 1 % ctx.nshards:
         run_parent_immutability(ctx)
+    cover.report_to(ctx, cov)
     for m in ('gradient-vs-values', 'derivative-vs-gradient', 'documented-values', 'lipschitz-bound'):
         ctx.ev(m, 0)
